@@ -189,10 +189,14 @@ def Bl(b):
 
 
 def Strl(s):
-    """a Coq string built from byte codes (robust for any byte sequence)"""
+    """a Coq string literal; byte codes for anything outside printable ASCII"""
     if isinstance(s, str):
-        s = s.encode("utf-8", "surrogateescape")
-    return "(str_of_codes [" + "; ".join(str(b) for b in s) + "]%nat)"
+        b = s.encode("utf-8", "surrogateescape")
+    else:
+        b = s
+    if all(32 <= c < 127 for c in b):
+        return '"%s"%%string' % b.decode("ascii").replace('"', '""')
+    return "(str_of_codes [" + "; ".join(str(c) for c in b) + "]%nat)"
 
 
 def Optl(x, f):
